@@ -21,7 +21,7 @@ SPEC = {
     "assumptions": ["vlib/langspec.py stack signatures ('certain' entries)", "vlib/cfg.py forced-branch exploration (calibrated on all golden TEAL)",
                     "vlib/avm.py sanitizers"],
     "min_evaluations": {"quick": 8000, "thorough": 60000},
-    "must_reach": ["abstract_ok", "forced_branches", "routines_analysed", "concrete_runs", "frame_routines", "src_catalogue", "src_recipe", "src_abi", "src_router", "src_corpus", "src_suite", "typed_join_rejected", "statement_position_rejected", "typed_store_rejected_frame", "typed_store_rejected_scratch"],
+    "must_reach": ["abstract_ok", "forced_branches", "routines_analysed", "concrete_runs", "frame_routines", "src_catalogue", "src_recipe", "src_abi", "src_router", "src_corpus", "src_suite", "typed_join_rejected", "statement_position_rejected", "typed_store_rejected_frame", "typed_store_rejected_scratch", "operand_type_rejected", "operand_type_accepted"],
     "shard_timeout": {"quick": 2400, "thorough": 14400},
 }
 
@@ -140,6 +140,7 @@ def run_shard(shard):
     typed_join_probes(pt, acc, seen, rng, 60 if shard["tier"] == "quick" else 400)
     statement_position_probes(pt, acc, seen, rng, 60 if shard["tier"] == "quick" else 400)
     typed_store_probes(pt, acc, seen, rng, 60 if shard["tier"] == "quick" else 400)
+    operand_type_probes(pt, acc, seen, rng, 80 if shard["tier"] == "quick" else 800)
     return acc.result()
 
 
@@ -401,6 +402,76 @@ def typed_store_probes(pt, acc, seen, rng, n):
         acc.counters["concrete_runs"] += 1
         if r.status == "fail" and r.error_kind == "type":
             acc.violation("runtime_discipline", case, "a value of the wrong concrete type was accepted by %s (%s, v%d, frame_pointers=%s) and the program fails with %s" % (kind, where, version, fp, r.error), teal=teal[-800:])
+
+
+def has_anytype(pt, root, cap=200000):
+    """Does any expression reachable from the built program (through attributes, lists, dicts; subroutine declarations included once
+    they have been evaluated) declare TealType.anytype?  The property's run-time clause speaks about programs without such
+    expressions only."""
+    seen, stack, n = set(), [root], 0
+    while stack and n < cap:
+        o = stack.pop()
+        if id(o) in seen or o is None or isinstance(o, (str, bytes, int, float, bool, type)):
+            continue
+        seen.add(id(o))
+        n += 1
+        if isinstance(o, pt.Expr):
+            try:
+                if o.type_of() == pt.TealType.anytype:
+                    return True
+            except Exception:
+                pass
+        if isinstance(o, (list, tuple, set, frozenset)):
+            stack.extend(o)
+        elif isinstance(o, dict):
+            stack.extend(o.values())
+        else:
+            d = getattr(o, "__dict__", None)
+            if d and type(o).__module__.startswith("pyteal"):
+                stack.extend(d.values())
+    return False
+
+
+def operand_type_probes(pt, acc, seen, rng, n):
+    """Every constructor of the catalogue with one literal operand replaced by a literal of the other type (uint64 <-> bytes): the
+    constructor rejects it, or accepts it because that operand may have either type - then the emitted program must still be
+    type-safe (abstract run with types on, and a concrete run must not fail with a type error)."""
+    from .. import avm, opcatalog
+    from ..common import PT_ERRORS, reset_globals
+    # (ScratchIndexed is the raw ScratchStore/ScratchLoad API: the load's type is the user's own assertion about an untyped slot)
+    E = [(ent, nl) for ent in opcatalog.entries(pt) if ent[0] != "ScratchIndexed" for nl in [opcatalog.count_literals(pt, ent)] if nl]
+    acc.counters["operand_probe_entries_with_literals"] = len(E)
+    for _ in range(n):
+        reset_globals()
+        ent, nl = rng.choice(E)
+        k = rng.randrange(1, nl + 1)
+        mode = "sig" if ent[2] == "sig" else "app"
+        version = rng.choice([8, 9, 10])
+        case = {"source": "operand_type_probe", "entry": ent[0], "flipped_literal": k, "version": version, "mode": mode}
+        try:
+            prog = opcatalog.wrap_flipped(pt, ent, k)
+            teal = pt.compileTeal(prog, pt.Mode.Application if mode == "app" else pt.Mode.Signature, version=version)
+        except PT_ERRORS:
+            acc.counters["operand_type_rejected"] += 1
+            continue
+        except Exception as e2:
+            acc.counters["operand_type_crashed:" + type(e2).__name__] += 1  # C20's subject
+            continue
+        acc.evaluations += 1
+        acc.counters["operand_type_accepted"] += 1
+        anyt = has_anytype(pt, prog)
+        if anyt:
+            acc.counters["operand_type_accepted_with_anytype(types not judged)"] += 1
+        p = judge_text(acc, "operand_type_probe", mode, version, teal, case, seen, anytype=anyt)
+        if p is None or anyt:
+            continue
+        try:
+            r = avm.run(p, avm.Ctx(mode=mode, group=[{"ApplicationArgs": [b"\x00" * 8] * 4}], args=[b"\x00" * 8] * 4))
+        except (avm.Unsupported, avm.Timeout):
+            continue
+        acc.counters["concrete_runs"] += 1
+        if r.status == "fail" and r.error_kind == "type":
+            acc.violation("runtime_discipline", case, "catalogue entry %s with literal operand %d of the other type was accepted and fails at run time with %s" % (ent[0], k, r.error), teal=teal[-800:])
 
 
 def check_recipe(acc, probe, recipe, v, mode, opts, ctxs, seen):
